@@ -1,6 +1,6 @@
 (** Pins of the capture-regex literals, the unconditional facts about the parameter-expansion
     pass (quoted tokens are untouched; it is a map), and worlds for witnesses. *)
-From Coq Require Import List NArith ZArith Bool Lia.
+From Coq Require Import List NArith ZArith Bool Lia PeanoNat.
 From Cicada Require Import Base.Chars Base.Tag Base.Regex Gen.ShellRegexes Model.Expand Model.ExpandRef.
 Import ListNotations.
 From Coq Require String.
@@ -27,6 +27,46 @@ Example pin_brace_range : rx_brace_range_src =
    46; 41; 63; 40; 91; 48; 45; 57; 93; 43; 41; 63; 92; 125].
 Proof. reflexivity. Qed.
 
+(* ------------------------------------------------------------------ the index buffer is a map *)
+(** expand_home and expand_env keep a hand-counted index over ALL tokens and write the new texts back
+    by index, in reverse.  Because the counter also runs over the skipped tokens, the write-back hits
+    exactly the token each text was computed from: the pass is the per-token map. *)
+Lemma set_text_at (pre : tokens) tg x s r :
+  set_text (length pre) s (pre ++ (tg, x) :: r) = pre ++ (tg, s) :: r.
+Proof. induction pre as [|[a b] pre IH]; cbn; [reflexivity|]. rewrite IH. reflexivity. Qed.
+
+Lemma text_collect_apply sel : forall toks (pre : tokens),
+  apply_texts (text_collect sel toks (length pre)) (pre ++ toks) = pre ++ map (text_tok sel) toks.
+Proof.
+  induction toks as [|t r IH]; intros pre; [reflexivity|].
+  cbn [text_collect map]. unfold text_tok at 1.
+  assert (Hshift : forall q : tokens, q ++ t :: r = (q ++ [t]) ++ r) by (intros q; rewrite <- app_assoc; reflexivity).
+  assert (Hlen : S (length pre) = length (pre ++ [t])) by (rewrite app_length; cbn; rewrite Nat.add_1_r; reflexivity).
+  destruct (sel t) as [s|] eqn:E.
+  - unfold apply_texts. cbn [rev]. rewrite fold_left_app. cbn [fold_left fst snd].
+    fold (apply_texts (text_collect sel r (S (length pre))) (pre ++ t :: r)).
+    rewrite Hlen, Hshift, IH, <- app_assoc. cbn [app]. destruct t as [tg x]. cbn [fst]. apply set_text_at.
+  - rewrite Hlen, Hshift, IH, <- app_assoc. reflexivity.
+Qed.
+
+Theorem text_pass_map sel toks : text_pass sel toks = map (text_tok sel) toks.
+Proof. exact (text_collect_apply sel toks []). Qed.
+
+Lemma env_tok_eq W t : text_tok (env_sel W) t = expand_env_tok W t.
+Proof.
+  unfold text_tok, env_sel, expand_env_tok. destruct (fst t); try reflexivity; destruct (env_in_token (snd t)); reflexivity.
+Qed.
+Lemma home_tok_eq W t : text_tok (home_sel W) t = expand_home_tok W t.
+Proof.
+  unfold text_tok, home_sel, expand_home_tok. destruct (tag_is_empty (fst t)); [|reflexivity].
+  destruct (strip_prefix [126] (snd t)); reflexivity.
+Qed.
+
+Theorem expand_env_map W toks : expand_env W toks = map (expand_env_tok W) toks.
+Proof. unfold expand_env. rewrite text_pass_map. apply map_ext. apply env_tok_eq. Qed.
+Theorem expand_home_map W toks : expand_home W toks = map (expand_home_tok W) toks.
+Proof. unfold expand_home. rewrite text_pass_map. apply map_ext. apply home_tok_eq. Qed.
+
 (* ------------------------------------------------------------------ quoted tokens *)
 Lemma expand_env_tok_quoted W t : fst t = TSq \/ fst t = TBq -> expand_env_tok W t = t.
 Proof. intros [H|H]; unfold expand_env_tok; rewrite H; reflexivity. Qed.
@@ -34,7 +74,7 @@ Proof. intros [H|H]; unfold expand_env_tok; rewrite H; reflexivity. Qed.
 Lemma expand_env_quoted W toks :
   (forall t, In t toks -> fst t = TSq \/ fst t = TBq) -> expand_env W toks = toks.
 Proof.
-  induction toks as [|t r IH]; intros H; [reflexivity|]. unfold expand_env in *. cbn [map].
+  rewrite expand_env_map. induction toks as [|t r IH]; intros H; [reflexivity|]. cbn [map].
   rewrite expand_env_tok_quoted by (apply H; left; reflexivity).
   rewrite IH by (intros x Hx; apply H; right; exact Hx). reflexivity.
 Qed.
@@ -42,14 +82,14 @@ Qed.
 (** the pass is a map: it keeps the number, order and tags of the tokens, and a single-quoted
     token inside any line is returned as it is *)
 Lemma expand_env_app W a b : expand_env W (a ++ b) = expand_env W a ++ expand_env W b.
-Proof. unfold expand_env. apply map_app. Qed.
+Proof. rewrite !expand_env_map. apply map_app. Qed.
 
 Lemma expand_env_tok_tag W t : fst (expand_env_tok W t) = fst t.
 Proof. unfold expand_env_tok. destruct (fst t) eqn:E; try (destruct (env_in_token (snd t))); cbn; auto. Qed.
 
 Lemma expand_env_keeps_sq W pre s post :
   expand_env W (pre ++ (TSq, s) :: post) = expand_env W pre ++ (TSq, s) :: expand_env W post.
-Proof. rewrite expand_env_app. reflexivity. Qed.
+Proof. rewrite expand_env_app. f_equal. rewrite !expand_env_map. reflexivity. Qed.
 
 (* ------------------------------------------------------------------ worlds for witnesses *)
 Definition tbl_lookup (tbl : list (str * str)) (k : str) : option str :=
